@@ -719,9 +719,6 @@ func runCase(c Case) vh.Record {
 		if op.O == "nullproto" && (c.Kind != 0 || nullProto) {
 			continue
 		}
-		if nullProto && op.O == "proto" {
-			continue
-		}
 		if c.Kind != 0 && (op.O == "bulk" || op.O == "setlenre") {
 			continue
 		}
@@ -784,7 +781,7 @@ func runCase(c Case) vh.Record {
 		}
 		r, o, d := normal.exec(op, c.Kind)
 		if op.O == "nullproto" && r == "RU" {
-			nullProto = true // from now on Array.prototype definitions no longer concern this array
+			nullProto = true // a second setPrototypeOf(null) is not issued; Array.prototype stays global (concat items inherit it)
 		}
 		opsN = append(opsN, o)
 		obsN = append(obsN, fmt.Sprintf("Ob (%s) %s", r, d))
